@@ -110,6 +110,13 @@ func (g *DependencyGraph) AddProvider(provider Provider) error {
 		}
 		g.nodes[nodeKey] = node
 	}
+
+	// Remember the previous state so that a rejected add can be undone
+	prevProvider := node.Provider
+	prevDependencies := node.Dependencies
+	prevEdges, hadEdges := g.edges[nodeKey]
+	var createdDeps []NodeKey
+
 	node.Provider = provider
 
 	// Clear existing edges for this node (in case of replacement)
@@ -133,6 +140,7 @@ func (g *DependencyGraph) AddProvider(provider Provider) error {
 				Dependencies: make([]NodeKey, 0),
 				Dependents:   make([]NodeKey, 0),
 			}
+			createdDeps = append(createdDeps, depKey)
 		}
 	}
 
@@ -149,9 +157,28 @@ func (g *DependencyGraph) AddProvider(provider Provider) error {
 
 	// Check for cycles immediately
 	if err := g.detectCyclesFrom(nodeKey); err != nil {
-		// Remove the node if it creates a cycle
-		delete(g.nodes, nodeKey)
-		delete(g.edges, nodeKey)
+		// Undo the add if it creates a cycle: the graph is left as it was
+		if exists {
+			node.Provider = prevProvider
+			node.Dependencies = prevDependencies
+			if hadEdges {
+				g.edges[nodeKey] = prevEdges
+			} else {
+				delete(g.edges, nodeKey)
+			}
+		} else {
+			delete(g.nodes, nodeKey)
+			delete(g.edges, nodeKey)
+		}
+
+		for _, depKey := range createdDeps {
+			if depKey != nodeKey {
+				delete(g.nodes, depKey)
+				delete(g.edges, depKey)
+			}
+		}
+
+		g.linkGroups()
 		g.updateDegrees()
 		return err
 	}
